@@ -322,10 +322,71 @@ def r5_order_equals_sizes(ctx):
     ctx.ob(co.where, "the contig order walked by streams is exactly the contigs that have sizes, in the same order (no extra filter)", ok, detail, key="C12-R5|order-vs-sizes")
 
 
+from .c08 import r5_similarity as _similarity_streams      # per-contig contingency tables are accumulated in lock-step over the synchronised streams
+
+
+def r6_group_boundaries_and_filter(ctx):
+    """(a) group boundaries of a chunk are the positions where the key CHANGES (any change: a key that goes back to an earlier contig must open a new
+    group, otherwise the out-of-order contig is merged into its predecessor and never reaches the order check); (b) the contig filter a genome is
+    created with is the one that decides which names are ignored: it is handed on at every link from the constructors to GenomeContext.from_dict."""
+    ix = ctx.index
+    f = ix.func("bionumpy.streams.groupby_func", "get_changes")
+    n = 0
+    for r in [x for x in body_walk(f.node) if isinstance(x, ast.Return)]:
+        cmps = [c for c in ast.walk(r.value) if isinstance(c, ast.Compare) and len(c.ops) == 1]
+        diffs = [c for c in ast.walk(r.value) if isinstance(c, ast.Call) and u(c.func) in ("np.diff", "np.ediff1d")]
+        if not cmps and not diffs:
+            continue
+        n += 1
+        ok = True
+        detail = u(r.value)
+        for c in cmps:
+            l, rr = c.left, c.comparators[0]
+            neighbour = isinstance(l, ast.Subscript) and isinstance(rr, ast.Subscript) and sym.canon(l.value) == sym.canon(rr.value)
+            is_diff = any(isinstance(x, ast.Call) and u(x.func) in ("np.diff", "np.ediff1d") for x in ast.walk(c))
+            if neighbour or is_diff:
+                if not isinstance(c.ops[0], ast.NotEq):
+                    ok = False
+            elif not isinstance(c.ops[0], (ast.NotEq, ast.Eq)):
+                raise Unrecognised(f"{f.where}: boundary test has an unknown form: {u(c)}")
+        if diffs and not cmps:
+            raise Unrecognised(f"{f.where}: boundary test has an unknown form: {u(r.value)}")
+        ctx.ob(f.where, "a group boundary is any position where the key differs from its predecessor (`!=`), not only where it increases", ok, detail,
+               key=f"C12-R6|boundary|{sym.canon(r.value)[:50]}")
+    ctx.floor("boundary computations in get_changes", n, 3)
+    G = "bionumpy.genomic_data.genome"
+    init = ix.func(G, "Genome.__init__")
+    ff = "filter_function"
+    ctx.need(ff in init.params, "Genome.__init__ has no filter_function parameter")
+    calls = [c for c in func_calls(init.node) if u(c.func) == "GenomeContext.from_dict"]
+    ctx.need(len(calls) == 1, "Genome.__init__: GenomeContext.from_dict call not found")
+    passed = [u(a) for a in calls[0].args[1:2]] + [u(k.value) for k in calls[0].keywords if k.arg == ff]
+    ctx.ob(init.where, "the genome's contig filter is handed to GenomeContext.from_dict (otherwise the default filter silently ignores contigs with '_')", passed == [ff], u(calls[0]),
+           key="C12-R6|filter-forwarded|Genome.__init__")
+    for qn in ("Genome.from_file", "Genome.from_dict"):
+        if not ix.has_func(G, qn):
+            continue
+        fi = ix.func(G, qn)
+        if ff not in fi.params:
+            continue
+        cc = [c for c in func_calls(fi.node) if u(c.func) == "cls"]
+        ctx.need(cc, f"{qn}: constructor call not found")
+        for c in cc:
+            passed = [u(k.value) for k in c.keywords if k.arg == ff] + [u(a) for a in c.args[3:4]]
+            ctx.ob(fi.where, f"{qn} hands its contig filter to the constructor", passed == [ff], u(c)[:140], key=f"C12-R6|filter-forwarded|{qn}")
+    fd = ix.func("bionumpy.genomic_data.genome_context", "GenomeContext.from_dict")
+    env = local_env(fd.node)
+    ig = [x for x in body_walk(fd.node) if isinstance(x, ast.Assign) and u(x.targets[0]) == "ignored_keys"]
+    ok = len(ig) == 1 and sym.canon(ig[0].value) == sym.canon(sym.parse_expr(f"{{key for key in {fd.params[1]} if not {fd.params[2]}(key)}}"))
+    ctx.ob(fd.where, "exactly the names rejected by the filter are ignored", ok, u(ig[0]) if ig else "", key="C12-R6|filter-applied")
+
+
 RULES = [
     ("C12-R1", r1_pending_group),
     ("C12-R2", r2_every_contig_gets_a_buffer),
     ("C12-R3", r3_unknown_and_repeated_names_raise),
     ("C12-R4", r4_context_immutable),
     ("C12-R5", r5_order_equals_sizes),
+    ("C12-R6", r6_group_boundaries_and_filter),
+    ("C12-R7", _similarity_streams),
 ]
